@@ -671,7 +671,7 @@ func init() {
 		Level:     "exploration",
 		NeedsConc: true,
 		QuickS:    120, ThoroughS: 900,
-		Rule: "every OPEN body of the generator G02 (fixed-field boundary product x optional-parameter layouts incl. length-octet mutations and truncations, short arbitrary bodies, selected lengths) x configurations x both directions is sent over the virtual wire to the real FSM (default schedule) and judged against an independent RFC 4271/5492/6286/6793 acceptability predicate; distinct = distinct (config, direction, body); non-trivial = reference class accept / dont-care, or reject with exactly one fault present",
+		Rule: "every OPEN body of the generator G02 (fixed-field boundary product x optional-parameter layouts incl. length-octet mutations and truncations, short arbitrary bodies, selected lengths) x configurations x both directions is sent over the virtual wire to the real FSM (default schedule) and judged against an independent RFC 4271/5492/6286/6793 acceptability predicate; plus pipelined scenarios under all schedules within the delay bound (the OPEN followed in the same write by another message or by FIN: the judgement must not depend on what follows), plugin-returned notifications; distinct = distinct (config, direction, body); non-trivial = reference class accept / dont-care, or reject with exactly one fault present",
 		Assume: []string{"virtual network and clock (vrt/vnet) are faithful to net/time (DESIGN 3.7)", "default schedule only: schedule dependence of the handshake is covered by C01/C07/C10",
 			"three-valued oracle: inputs on which the property text is silent (identifier 0.0.0.0, AS_TRANS with a 16-bit remote AS, zero-length capabilities parameter, conflicting 4-octet-AS capabilities) are not judged on accept/reject"},
 		Run: c02Check,
